@@ -789,8 +789,16 @@ def oracle(c, a):
             bad.append(("secondary %d direction is not a unit vector: %r" % (i, d), None))
         th = threshold(c, i, pid)
         if th is not None and e < th * (1 - 1e-12):
+            sig = None
+            # known finding, narrow: RBEnergySampler's sqrt(esq - density_corr) with density_corr >> cut^2 (relativistic
+            # and combined brems at very high energy): photon within 1e-3 below the gamma cut, shortfall inside the rounding
+            # bound of the subtraction (d_rho <= 1e-6 E_tot^2 for the fixture's materials), candidate draw ~ 0 consumed
+            if (m in ("relbrem", "combined") and pid == 2 and e >= th * (1 - 1e-3)
+                    and (th - e) / th <= 8 * 2.0 ** -52 * (1 + 1e-6 * (c.E + EMASS) ** 2 / (th * th))
+                    and any(x <= 1e-15 for x in c.u[:a["draws"]])):
+                sig = "relbrem-photon-below-cut-by-density-correction-rounding"
             bad.append(("secondary %d (pid %d) energy %.17g below the production threshold %.17g of its particle type"
-                        % (i, pid, e, th), None))
+                        % (i, pid, e, th), sig))
     # momentum balance where all products are returned
     if m in MOMENTUM_MODELS and not any(s[0] < 0 for s in a["secs"]):
         def pvec(pid, e, d):
